@@ -19,7 +19,12 @@ def graph(ctx):
 
 
 def typedef_match_fn(ctx, rid, role, out_pred, crate=D):
-    hits = [(b, ms) for b, ms in q.fns_with_match_on(ctx.P, lambda t: t.startswith("scale_info::TypeDef<"), (crate,), ret_pred=out_pred)]
+    hits = []
+    for b, ms in q.fns_with_match_on(ctx.P, lambda t: t.startswith("scale_info::TypeDef<"), (crate,), ret_pred=out_pred):
+        # dispatching matches only: every arm names a variant (no catch-all)
+        full = [m for m in ms if "_" not in arms_by_variant(m)]
+        if full:
+            hits.append((b, full))
     return q.anchor_fn(ctx, rid, role, hits)
 
 
@@ -87,3 +92,26 @@ def panic_inventory(ctx, rid, entry_suffix, crates=(D,)):
     ctx.count("panic-capable sites reachable from " + entry_suffix, len(inv), 3)
     panics.discharge_all(ctx, rid, ctx.P, inv, g, {"bindings": table})
     return reach
+
+
+# ------------------------------------------------------------------- goldens ----
+import json as _json, os as _os
+_GOLD = None
+
+
+def golden(key):
+    global _GOLD
+    if _GOLD is None:
+        with open(_os.path.join(_os.path.dirname(_os.path.abspath(__file__)), "golden.json")) as fh:
+            _GOLD = _json.load(fh)
+    return _GOLD[key]
+
+
+def expect_golden(ctx, rid, key, gkey, suffix, why, crate=D):
+    fn = q.fn1(ctx.P, suffix, crate)
+    if fn is None:
+        ctx.bad(rid, "missing-anchor/" + suffix, "", "function `%s` not found" % suffix)
+        return None
+    t = show(Norm(fn).term(fn["body"]), 10 ** 7)
+    expect_term(ctx, rid, key, fn["sp"], t, golden(gkey), why)
+    return fn
